@@ -43,7 +43,7 @@ LEVEL_TEXT = ("Lean theorems (all inputs, no size bound): FASTA round trip for e
               "reindex(lines) after set/replace/insert/delete for FastaFile, FastqFile, GFFFile and GenBankFile. Gen "
               "obligations (regenerated with ast on every run): _NOT_QUOTED, _OFFSETS, column constants, line-start characters, "
               "score guard, regexes, location keywords/separators, GenBankFile widths and limits, GFF literals, Defect members, "
-              "every default value, and a structural fingerprint of all 104 anchored functions. Executable model tied to the real classes "
+              "every default value, and a normal-form fingerprint (robust to renames, messages, docstrings) of all 94 public functions. Executable model tied to the real classes "
               "op by op (incl. get_annotation/set_annotation/set_sequence at line level); oracle write->read on whole "
               "formats. Not proved (oracle only): Sequence-object conversion, LOCUS line, GenPept specifics")
 LEVEL_NOTE = "see notes/C12.md: 13 defects found and repaired in /repo (fix: commits), no open known findings"
@@ -108,160 +108,287 @@ def _const(src, name, path):
     return int(m.group(1))
 
 
-# ---- pass 7: more of the model's literals and structure regenerated from the source (ast)
-_TIE_MODULES = [
-    ("file", "biotite/file.py", ["wrap_string", "TextFile.read", "TextFile.write", "TextFile.write_iter", "TextFile.__copy_fill__"]),
-    ("fasta_file", "biotite/sequence/io/fasta/file.py", ["FastaFile.__init__", "FastaFile.read", "FastaFile.__setitem__", "FastaFile.__getitem__",
-                                                       "FastaFile.__delitem__", "FastaFile._find_entries", "FastaFile.read_iter", "FastaFile.write_iter",
-                                                       "FastaFile.__copy_create__", "FastaFile.__copy_fill__"]),
-    ("fasta_convert", "biotite/sequence/io/fasta/convert.py", ["get_sequence", "get_sequences", "set_sequence", "set_sequences", "get_alignment", "set_alignment",
-                                                             "_convert_to_sequence", "_process_protein_sequence", "_process_nucleotide_sequence", "_convert_to_string"]),
-    ("fastq_file", "biotite/sequence/io/fastq/file.py", ["FastqFile.__init__", "FastqFile.read", "FastqFile.get_seq_string", "FastqFile.get_quality", "FastqFile.__setitem__",
-                                                       "FastqFile.__delitem__", "FastqFile._find_entries", "FastqFile.read_iter", "FastqFile.write_iter",
-                                                       "FastqFile.__copy_create__", "FastqFile.__copy_fill__", "_score_str_to_scores", "_scores_to_score_str", "_convert_offset"]),
-    ("fastq_convert", "biotite/sequence/io/fastq/convert.py", ["get_sequence", "get_sequences", "set_sequence", "set_sequences", "_convert_to_string"]),
-    ("gb_annotation", "biotite/sequence/io/genbank/annotation.py", ["get_annotation", "_parse_locs", "_parse_single_loc", "_set_qual", "set_annotation", "_check_expressible", "_convert_to_loc_string"]),
-    ("gb_sequence", "biotite/sequence/io/genbank/sequence.py", ["get_raw_sequence", "get_sequence", "get_annotated_sequence", "_field_to_seq_string", "_convert_seq_str", "_get_seq_start", "set_sequence", "set_annotated_sequence"]),
-    ("gb_file", "biotite/sequence/io/genbank/file.py", ["GenBankFile.__init__", "GenBankFile.read", "GenBankFile.get_fields", "GenBankFile.get_indices", "GenBankFile.set_field", "GenBankFile.__getitem__",
-                                                      "GenBankFile.__setitem__", "GenBankFile.__delitem__", "GenBankFile.insert", "GenBankFile.append", "GenBankFile._find_field_indices",
-                                                      "GenBankFile._get_field_content", "GenBankFile._to_lines", "GenBankFile._translate_idx", "GenBankFile.__copy_fill__", "MultiFile.__iter__"]),
-    ("gb_metadata", "biotite/sequence/io/genbank/metadata.py", ["get_locus", "get_definition", "get_accession", "get_version", "get_gi", "get_db_link", "get_source", "_expect_single_field", "set_locus"]),
-    ("gff_file", "biotite/sequence/io/gff/file.py", ["GFFFile.__init__", "GFFFile.read", "GFFFile.insert", "GFFFile.append", "GFFFile.append_directive", "GFFFile.directives", "GFFFile.__setitem__",
-                                                   "GFFFile.__getitem__", "GFFFile.__delitem__", "GFFFile._index_entries", "GFFFile._create_line", "GFFFile._parse_attributes",
-                                                   "GFFFile.__copy_fill__", "_quote_value"]),
-    ("gff_convert", "biotite/sequence/io/gff/convert.py", ["get_annotation", "set_annotation"]),
-    ("general", "biotite/sequence/io/general.py", ["load_sequence", "save_sequence", "load_sequences", "save_sequences"]),
+# ---- pass 7/8: literals and structure of the anchored source, regenerated with ast in a NORMALISED form:
+# independent of names of locals / parameters of private helpers / private helpers and globals themselves (they are
+# inlined where they are used), of comments, docstrings, annotations, formatting and the texts of exceptions and warnings.
+_TIE_FILES = [
+    ("file", "biotite/file.py"), ("fasta_file", "biotite/sequence/io/fasta/file.py"), ("fasta_convert", "biotite/sequence/io/fasta/convert.py"),
+    ("fastq_file", "biotite/sequence/io/fastq/file.py"), ("fastq_convert", "biotite/sequence/io/fastq/convert.py"),
+    ("gb_annotation", "biotite/sequence/io/genbank/annotation.py"), ("gb_sequence", "biotite/sequence/io/genbank/sequence.py"),
+    ("gb_file", "biotite/sequence/io/genbank/file.py"), ("gb_metadata", "biotite/sequence/io/genbank/metadata.py"),
+    ("gff_file", "biotite/sequence/io/gff/file.py"), ("gff_convert", "biotite/sequence/io/gff/convert.py"), ("general", "biotite/sequence/io/general.py"),
 ]
 
 
-def _tie_functions(tree):
+class _TieModule:
+    """functions, classes and private globals of one source file"""
+
+    def __init__(self, path):
+        import ast
+        self.tree = ast.parse(open(path).read())
+        self.funcs, self.classes, self.globals = {}, {}, {}
+        for n in self.tree.body:
+            if isinstance(n, ast.FunctionDef):
+                self.funcs[n.name] = n
+            elif isinstance(n, ast.ClassDef):
+                self.classes[n.name] = {m.name: m for m in n.body if isinstance(m, ast.FunctionDef)}
+            elif isinstance(n, ast.Assign) and len(n.targets) == 1 and isinstance(n.targets[0], ast.Name):
+                self.globals[n.targets[0].id] = n.value
+
+    def public(self):
+        """(qualified name, node, class name or None) of every public function and every public / dunder method"""
+        out = [(k, v, None) for k, v in self.funcs.items() if not k.startswith("_")]
+        for c, ms in self.classes.items():
+            if c.startswith("_"):
+                continue
+            out += [(f"{c}.{k}", v, c) for k, v in ms.items() if not k.startswith("_") or (k.startswith("__") and k.endswith("__"))]
+        return out
+
+    def all_functions(self):
+        return list(self.funcs.items()) + [(f"{c}.{k}", v) for c, ms in self.classes.items() for k, v in ms.items()]
+
+
+def _const_repr(n):
     import ast
-    out = {}
-    for n in tree.body:
-        if isinstance(n, ast.FunctionDef):
-            out[n.name] = n
-        elif isinstance(n, ast.ClassDef):
-            for m in n.body:
-                if isinstance(m, ast.FunctionDef):
-                    out[f"{n.name}.{m.name}"] = m
-    return out
+    if isinstance(n, ast.Constant):
+        return repr(n.value)
+    if isinstance(n, ast.UnaryOp) and isinstance(n.op, ast.USub) and isinstance(n.operand, ast.Constant):
+        return repr(-n.operand.value)
+    if isinstance(n, ast.Tuple) and all(_const_repr(e) is not None for e in n.elts):
+        return "(" + ",".join(_const_repr(e) for e in n.elts) + ")"
+    return None
 
 
-def _tie_tokens(fn):
-    """Structure of a function that does not depend on names of locals, comments, docstrings or error texts:
-    constants, comparison / arithmetic / boolean operators, control flow, called names, raised classes, defaults."""
+def _tie_normal_form(mod, fn, cls=None, stack=()):
+    """(set of atoms, ordered list of checks) of a function with private helpers and private globals inlined"""
     import ast
-    toks = []
-
-    def nm(x):
-        if isinstance(x, ast.Name):
-            return x.id
-        if isinstance(x, ast.Attribute):
-            return "." + x.attr
-        if isinstance(x, ast.Call):
-            return nm(x.func)
-        return type(x).__name__
-
-    class V(ast.NodeVisitor):
-        def visit_Raise(self, n):
-            toks.append("raise:" + (nm(n.exc) if n.exc is not None else "reraise"))      # the message is not part of the tie
-
-        def visit_Call(self, n):
-            if nm(n.func) == ".warn":
-                toks.append("call:.warn")
-                return
-            toks.append("call:" + nm(n.func) + "/" + str(len(n.args)) + "".join("," + k.arg for k in n.keywords if k.arg))
-            self.generic_visit(n)
-
-        def visit_Compare(self, n):
-            toks.append("cmp:" + ",".join(type(o).__name__ for o in n.ops))
-            self.generic_visit(n)
-
-        def visit_BinOp(self, n):
-            toks.append("bin:" + type(n.op).__name__)
-            self.generic_visit(n)
-
-        def visit_BoolOp(self, n):
-            toks.append("bool:" + type(n.op).__name__ + str(len(n.values)))
-            self.generic_visit(n)
-
-        def visit_UnaryOp(self, n):
-            toks.append("un:" + type(n.op).__name__)
-            self.generic_visit(n)
-
-        def visit_AugAssign(self, n):
-            toks.append("aug:" + type(n.op).__name__)
-            self.generic_visit(n)
-
-        def visit_Constant(self, n):
-            toks.append("c:" + repr(n.value))
-
-        def visit_JoinedStr(self, n):
-            toks.append("fstr")
-            self.generic_visit(n)
-
-        def visit_Slice(self, n):
-            toks.append("slice:" + "".join("1" if x is not None else "0" for x in (n.lower, n.upper, n.step)))
-            self.generic_visit(n)
-
-        def visit_FunctionDef(self, n):      # nested helper (generators in write_iter)
-            toks.append("def")
-            self.generic_visit(n)
-
-        def generic_visit(self, n):
-            if isinstance(n, (ast.For, ast.While, ast.If, ast.IfExp, ast.Return, ast.Yield, ast.YieldFrom, ast.Try, ast.ExceptHandler,
-                              ast.Break, ast.Continue, ast.Delete, ast.ListComp, ast.DictComp, ast.Starred, ast.With, ast.Assign, ast.Subscript,
-                              ast.Tuple, ast.List, ast.Dict, ast.Attribute)):
-                toks.append(type(n).__name__ + (":" + n.attr if isinstance(n, ast.Attribute) and isinstance(n.value, ast.Name) and n.value.id in ("self", "clone", "Location", "np", "file") else ""))
-            super().generic_visit(n)
-
+    atoms, checks = set(), []
     a = fn.args
-    defaults = [None] * (len(a.args) - len(a.defaults)) + list(a.defaults)
-    for arg, d in zip(a.args, defaults):
-        toks.append("arg:" + arg.arg + ("=" + ast.unparse(d) if d is not None else ""))
-    for arg, d in zip(a.kwonlyargs, a.kw_defaults):
-        toks.append("kwarg:" + arg.arg + ("=" + ast.unparse(d) if d is not None else ""))
-    if a.vararg:
-        toks.append("vararg:" + a.vararg.arg)
+    local = {x.arg for x in a.args + a.kwonlyargs} | ({a.vararg.arg} if a.vararg else set()) | ({a.kwarg.arg} if a.kwarg else set())
+    lists = set()
+    for n in ast.walk(fn):
+        if isinstance(n, (ast.Assign, ast.AugAssign, ast.For, ast.comprehension, ast.With, ast.NamedExpr)):
+            tg = n.targets if isinstance(n, ast.Assign) else [getattr(n, "target", None)]
+            for t in tg:
+                for x in ast.walk(t) if t is not None else []:
+                    if isinstance(x, ast.Name):
+                        local.add(x.id)
+            if isinstance(n, ast.Assign) and isinstance(n.value, ast.List) and not n.value.elts:
+                lists |= {t.id for t in n.targets if isinstance(t, ast.Name)}
+        elif isinstance(n, ast.ExceptHandler) and n.name:
+            local.add(n.name)
+
+    def dotted(x):
+        parts = []
+        while isinstance(x, ast.Attribute):
+            parts.append(x.attr)
+            x = x.value
+        if isinstance(x, ast.Name):
+            return x.id, list(reversed(parts))
+        return None, list(reversed(parts))
+
+    def private_target(func):
+        """the private helper a call goes to: (node, class) or None"""
+        if isinstance(func, ast.Name) and func.id.startswith("_") and func.id in mod.funcs:
+            return mod.funcs[func.id], None
+        if isinstance(func, ast.Attribute) and func.attr.startswith("_") and not func.attr.startswith("__"):
+            root, _ = dotted(func)
+            owner = cls if root in ("self", "cls", "clone", "file") else (root if root in mod.classes else None)
+            if owner is None and isinstance(func.value, ast.Name):
+                owner = next((c for c, ms in mod.classes.items() if func.attr in ms), None)
+            if owner in mod.classes and func.attr in mod.classes[owner]:
+                return mod.classes[owner][func.attr], owner
+        return None
+
+    def inline(node, owner, key):
+        if key in stack or len(stack) > 6:
+            atoms.add("rec")
+            return
+        sa, sc = _tie_normal_form(mod, node, owner, stack + (key,))
+        atoms.update(sa)
+        checks.extend(sc)
+
+    def test_atoms(t):
+        """atoms of a test expression alone (they are also added to the atoms of the function)"""
+        nonlocal atoms
+        saved, atoms = atoms, set()
+        n_checks = len(checks)
+        visit(t)
+        sub, atoms = atoms, saved
+        atoms |= sub
+        del checks[n_checks:]        # checks of helpers called inside a test are not separate steps
+        return sorted(sub)
+
+    def visit(n):
+        if n is None:
+            return
+        if isinstance(n, ast.Raise):
+            c = n.exc
+            name = "reraise" if c is None else (dotted(c.func if isinstance(c, ast.Call) else c)[0] or "?")
+            atoms.add("raise:" + name)
+            checks.append("raise:" + name)
+            return                                   # the message is not part of the tie
+        if isinstance(n, ast.Assert):
+            atoms.add("assert")
+            checks.append("assert{" + ",".join(test_atoms(n.test)) + "}")
+            return
+        if isinstance(n, ast.If):
+            ta = test_atoms(n.test)
+            has_raise = any(isinstance(x, ast.Raise) for b in (n.body, n.orelse) for st in b for x in ast.walk(st))
+            if has_raise:
+                checks.append("if{" + ",".join(ta) + "}")
+            for st in n.body + n.orelse:
+                visit(st)
+            return
+        if isinstance(n, ast.Call):
+            tgt = private_target(n.func)
+            root, parts = dotted(n.func)
+            if tgt is not None:
+                inline(tgt[0], tgt[1], (tgt[1], tgt[0].name))
+            elif parts[-1:] == ["warn"]:
+                atoms.add("call:.warn")
+                return                               # warning texts are not part of the tie
+            elif parts[-1:] in (["append"], ["extend"]) and root in lists:
+                pass                                 # building a local list: comprehension or loop, the same thing
+            else:
+                name = (("." + parts[-1]) if parts and (root is None or root in local or root in ("self", "cls")) else ".".join([root or "?"] + parts))
+                cargs = [r for r in (_const_repr(x) for x in n.args) if r is not None]
+                kws = [k.arg + ("=" + _const_repr(k.value) if _const_repr(k.value) is not None else "") for k in n.keywords if k.arg]
+                atoms.add("call:" + name + "".join(":" + x for x in cargs + sorted(kws)))
+                if not (isinstance(n.func, ast.Name)):
+                    visit(n.func.value if isinstance(n.func, ast.Attribute) else n.func)
+            for x in n.args:
+                if _const_repr(x) is None:
+                    visit(x)
+            for k in n.keywords:
+                if _const_repr(k.value) is None:
+                    visit(k.value)
+            return
+        if isinstance(n, ast.Compare):
+            cs = sorted(r for r in (_const_repr(x) for x in [n.left] + n.comparators) if r is not None)
+            atoms.add("cmp:" + ",".join(type(o).__name__ for o in n.ops) + "".join(":" + c for c in cs))
+            for x in [n.left] + n.comparators:
+                if _const_repr(x) is None:
+                    visit(x)
+            return
+        if isinstance(n, (ast.BinOp, ast.AugAssign)):
+            l, r = (n.left, n.right) if isinstance(n, ast.BinOp) else (n.target, n.value)
+            cs = [c for c in (_const_repr(l), _const_repr(r)) if c is not None]
+            atoms.add("bin:" + type(n.op).__name__ + "".join(":" + c for c in cs))
+            for x in (l, r):
+                if _const_repr(x) is None:
+                    visit(x)
+            return
+        if isinstance(n, ast.BoolOp):
+            atoms.add("bool:" + type(n.op).__name__)
+        elif isinstance(n, ast.UnaryOp) and isinstance(n.op, ast.Not):
+            atoms.add("un:Not")
+        elif isinstance(n, ast.IfExp):
+            if all(isinstance(x, ast.Constant) and isinstance(x.value, bool) for x in (n.body, n.orelse)):
+                visit(n.test)                # `True if c else False` is `c`
+                return
+        elif isinstance(n, ast.Subscript):
+            sl = n.slice
+            if isinstance(sl, ast.Slice):
+                atoms.add("slice:" + ":".join((_const_repr(x) or "x") if x is not None else "" for x in (sl.lower, sl.upper, sl.step)))
+                visit(n.value)
+                for x in (sl.lower, sl.upper, sl.step):
+                    if x is not None and _const_repr(x) is None:
+                        visit(x)
+                return
+            if _const_repr(sl) is not None:
+                atoms.add("idx:" + _const_repr(sl))
+                visit(n.value)
+                return
+        elif isinstance(n, ast.JoinedStr):
+            for v in n.values:
+                if isinstance(v, ast.Constant):
+                    atoms.add("fstr:" + repr(v.value))
+                else:
+                    visit(v.value)
+                    if v.format_spec is not None:
+                        for fv in v.format_spec.values:
+                            if isinstance(fv, ast.Constant):
+                                atoms.add("fmt:" + repr(fv.value))
+            return
+        elif isinstance(n, (ast.For, ast.While, ast.ListComp, ast.GeneratorExp, ast.DictComp, ast.SetComp)):
+            atoms.add("loop")
+        elif isinstance(n, ast.Constant):
+            atoms.add("c:" + repr(n.value))
+            return
+        elif isinstance(n, (ast.Attribute, ast.Name)):
+            root, parts = dotted(n)
+            if root is not None and root not in local and root not in ("self", "cls", "True", "False", "None"):
+                if root.startswith("_") and root in mod.globals:
+                    key = (None, root)
+                    if key not in stack:
+                        sub_mod_fn = ast.FunctionDef(name=root, args=ast.arguments(posonlyargs=[], args=[], kwonlyargs=[], kw_defaults=[], defaults=[]),
+                                                     body=[ast.Expr(mod.globals[root])], decorator_list=[])
+                        inline(sub_mod_fn, None, key)
+                else:
+                    atoms.add("name:" + ".".join([root] + parts))
+            return
+        elif isinstance(n, (ast.FunctionDef, ast.Lambda)) and n is not fn:
+            # nested helper (the generator inside write_iter): part of this function
+            for st in (n.body if isinstance(n.body, list) else [n.body]):
+                visit(st)
+            return
+        elif isinstance(n, ast.arguments):
+            return
+        for ch in ast.iter_child_nodes(n):
+            if isinstance(ch, (ast.expr_context, ast.operator, ast.cmpop, ast.boolop, ast.unaryop)):
+                continue
+            visit(ch)
+
     body = fn.body
     if body and isinstance(body[0], ast.Expr) and isinstance(body[0].value, ast.Constant) and isinstance(body[0].value.value, str):
         body = body[1:]
     for st in body:
-        V().visit(st)
-    return toks
+        visit(st)
+    return atoms, checks
+
+
+def _tie_signature(fn):
+    """parameter names and defaults of a PUBLIC function (its public interface); annotations are not part of the tie"""
+    import ast
+    a = fn.args
+    dd = [None] * (len(a.args) - len(a.defaults)) + list(a.defaults)
+    out = [x.arg + ("=" + ast.unparse(d) if d is not None else "") for x, d in zip(a.args, dd)]
+    out += ["*" + a.vararg.arg] if a.vararg else []
+    out += [x.arg + ("=" + ast.unparse(d) if d is not None else "") for x, d in zip(a.kwonlyargs, a.kw_defaults)]
+    return out
+
+
+def _tie_find(mod, pred, what, cls=None):
+    """the one function of a module (or class) whose body satisfies pred: helpers are found by what they contain"""
+    cands = [(q, f) for q, f in mod.all_functions() if (cls is None or q.startswith(cls + ".")) and pred(f)]
+    if len(cands) != 1:
+        raise ValueError(f"{what}: expected exactly one function of that shape, found {[q for q, _ in cands]}")
+    return cands[0]
 
 
 def _tie_facts(src_root):
-    """named literals of the anchored source that the hand-written Lean model hard-codes"""
+    """named literals of the anchored source that the hand-written Lean model hard-codes, found structurally"""
     import ast
     import hashlib
 
     facts, fps, dump = {}, {}, []
-    trees = {}
-    for mod, rel, names in _TIE_MODULES:
-        path = os.path.join(src_root, rel)
-        tree = ast.parse(open(path).read())
-        fns = _tie_functions(tree)
-        trees[mod] = fns
+    mods = {m: _TieModule(os.path.join(src_root, rel)) for m, rel in _TIE_FILES}
+    for m, mod in mods.items():
         rows = []
-        for name in names:
-            if name not in fns:
-                raise ValueError(f"function {name} not found in {rel}")
-            toks = _tie_tokens(fns[name])
-            h = int(hashlib.sha256("\n".join(toks).encode()).hexdigest()[:14], 16)
-            rows.append((name, h))
-            dump.append(f"{mod}:{name} [{h}] " + " ".join(t.replace("-/", "- /") for t in toks))
-        fps[mod] = rows
+        for q, fn, cls in mod.public():
+            atoms, checks = _tie_normal_form(mod, fn, cls)
+            text = "A|" + "|".join(sorted(atoms)) + "|C|" + "|".join(checks) + "|S|" + ",".join(_tie_signature(fn))
+            h = int(hashlib.sha256(text.encode()).hexdigest()[:14], 16)
+            rows.append((q, h))
+            dump.append(f"{m}:{q} [{h}] " + text.replace("-/", "- /"))
+        fps[m] = rows
 
-    def consts_cmp_sub0(fn):
-        """string constants compared with <name>[0]"""
-        out = []
-        for n in ast.walk(fn):
-            if isinstance(n, ast.Compare) and isinstance(n.left, ast.Subscript) and isinstance(n.left.slice, ast.Constant) and n.left.slice.value == 0:
-                for c in n.comparators:
-                    if isinstance(c, ast.Constant) and isinstance(c.value, str):
-                        out.append((type(n.ops[0]).__name__, c.value))
-        return out
+    def W(fn):
+        return list(ast.walk(fn))
+
+    def strs(fn, maxlen):
+        return [n.value for n in W(fn) if isinstance(n, ast.Constant) and isinstance(n.value, str) and 0 < len(n.value) <= maxlen]
 
     def one(xs, what):
         xs = list(dict.fromkeys(xs))
@@ -269,77 +396,103 @@ def _tie_facts(src_root):
             raise ValueError(f"{what}: expected exactly one value in the source, found {xs}")
         return xs[0]
 
-    fa, fq = trees["fasta_file"], trees["fastq_file"]
-    facts["fastaHeaderChar"] = one([v for _, v in consts_cmp_sub0(fa["FastaFile._find_entries"])], "FASTA header character in _find_entries")
-    facts["fastaCommentChar"] = one([v for o, v in consts_cmp_sub0(fa["FastaFile.read"]) if o == "NotEq"], "FASTA comment character in read")
-    facts["fastaHeaderPrefix"] = one([n.left.value for n in ast.walk(fa["FastaFile.__setitem__"]) if isinstance(n, ast.BinOp) and isinstance(n.op, ast.Add)
-                                      and isinstance(n.left, ast.Constant) and isinstance(n.left.value, str)], "FASTA header prefix in __setitem__")
-    cq = consts_cmp_sub0(fq["FastqFile._find_entries"])
-    facts["fastqLineStartChars"] = [v for _, v in cq]                      # '@' then '+', in the order of the tests
-    facts["fastqIdPrefix"] = one([n.left.value for n in ast.walk(fq["FastqFile.__setitem__"]) if isinstance(n, ast.BinOp) and isinstance(n.op, ast.Add)
-                                  and isinstance(n.left, ast.Constant) and isinstance(n.left.value, str)], "FASTQ identifier prefix")
-    rng_cmp = [(type(n.ops[0]).__name__, n.comparators[0].value) for n in ast.walk(fq["_scores_to_score_str"])
-               if isinstance(n, ast.Compare) and isinstance(n.comparators[0], ast.Constant) and isinstance(n.comparators[0].value, int)]
-    if [o for o, _ in rng_cmp] != ["Lt", "Gt"]:
-        raise ValueError(f"score range guard of _scores_to_score_str not of the form (x < lo) | (x > hi): {rng_cmp}")
-    facts["scoreLo"], facts["scoreHi"] = rng_cmp[0][1], rng_cmp[1][1]
-    facts["scoreDtypes"] = [n.attr for n in ast.walk(fq["_scores_to_score_str"]) if isinstance(n, ast.Attribute) and isinstance(n.value, ast.Name) and n.value.id == "np" and n.attr.startswith(("int", "uint"))] + \
-        ["|"] + [(n.attr if isinstance(n, ast.Attribute) else n.id) for c in ast.walk(fq["_score_str_to_scores"]) if isinstance(c, ast.Call)
-                 for n in list(c.args) + [k.value for k in c.keywords] if (isinstance(n, ast.Attribute) and n.attr.startswith(("int", "uint"))) or (isinstance(n, ast.Name) and n.id == "int")]
+    def cmp_sub0(nodes):
+        return [c.value for n in nodes if isinstance(n, ast.Compare) and isinstance(n.left, ast.Subscript) and isinstance(n.left.slice, ast.Constant)
+                and n.left.slice.value == 0 for c in n.comparators if isinstance(c, ast.Constant) and isinstance(c.value, str)]
 
-    an, sq, gf = trees["gb_annotation"], trees["gb_sequence"], trees["gb_file"]
+    def add_left(nodes):
+        return [n.left.value for n in nodes if isinstance(n, ast.BinOp) and isinstance(n.op, ast.Add) and isinstance(n.left, ast.Constant) and isinstance(n.left.value, str)]
 
-    def regexes(fn):
-        return [c.args[0].value for c in ast.walk(fn) if isinstance(c, ast.Call) and isinstance(c.func, ast.Attribute) and c.func.attr == "compile"
-                and c.args and isinstance(c.args[0], ast.Constant)]
-    facts["qualifierRegex"] = one(regexes(an["get_annotation"]), "qualifier regex of get_annotation")
-    facts["originRegex"] = one(regexes(sq["_field_to_seq_string"]), "regex of _field_to_seq_string")
-    facts["originNumberFormat"] = one([n.value for n in ast.walk(sq["set_sequence"]) if isinstance(n, ast.Constant) and isinstance(n.value, str) and "{" in n.value], "position format of set_sequence")
-    sw = [c.args[0] for c in ast.walk(an["_parse_locs"]) if isinstance(c, ast.Call) and isinstance(c.func, ast.Attribute) and c.func.attr == "startswith"]
-    facts["locKeywords"] = [e.value for a in sw for e in (a.elts if isinstance(a, ast.Tuple) else [a])]
-    facts["locSeparators"] = [n.left.value for n in ast.walk(an["_parse_single_loc"]) if isinstance(n, ast.Compare) and isinstance(n.ops[0], ast.In) and isinstance(n.left, ast.Constant)]
-    facts["locPrintLiterals"] = [n.value for n in ast.walk(an["_convert_to_loc_string"]) if isinstance(n, ast.Constant) and isinstance(n.value, str) and n.value.strip()
-                                 and not n.value.lstrip().startswith("Create")]
-    tl = gf["GenBankFile._to_lines"]
-    facts["gbLimits"] = [n.comparators[0].value for n in ast.walk(tl) if isinstance(n, ast.Compare) and isinstance(n.ops[0], ast.Gt)
-                         and isinstance(n.comparators[0], ast.Constant) and isinstance(n.comparators[0].value, int)]
-    facts["gbNameColumn"] = one([int(n.format_spec.values[0].value) for n in ast.walk(tl) if isinstance(n, ast.FormattedValue) and n.format_spec is not None
-                                 and n.format_spec.values and isinstance(n.format_spec.values[0], ast.Constant) and str(n.format_spec.values[0].value).isdigit()], "name column width of _to_lines")
-    facts["gbHeaderPad"] = one([n.right.value for n in ast.walk(tl) if isinstance(n, ast.BinOp) and isinstance(n.op, ast.Mult) and isinstance(n.right, ast.Constant)], "padding of the FEATURES header")
-    facts["gbSliceWidths"] = sorted({x.value for fn in (gf["GenBankFile.__getitem__"], gf["GenBankFile._find_field_indices"], gf["GenBankFile._get_field_content"])
-                                     for n in ast.walk(fn) if isinstance(n, ast.Slice) for x in (n.lower, n.upper) if isinstance(x, ast.Constant) and isinstance(x.value, int)}
-                                    | {k.value.value for n in ast.walk(gf["GenBankFile.__getitem__"]) if isinstance(n, ast.Call) for k in n.keywords
-                                       if k.arg == "indent" and isinstance(k.value, ast.Constant)})
-    facts["gbTerminator"] = one([v for fn in (gf["GenBankFile._find_field_indices"], gf["MultiFile.__iter__"], tl) for n in ast.walk(fn)
-                                 if isinstance(n, ast.Constant) and isinstance((v := n.value), str) and v.strip() == "//"], "terminator literal")
-    g = trees["gff_file"]
-    facts["gffColumns"] = one([n.comparators[0].value for n in ast.walk(g["GFFFile.__getitem__"]) if isinstance(n, ast.Compare) and isinstance(n.left, ast.Call)
+    def with_globals(mod, fn):
+        """nodes of a function together with those of the private globals and private helpers it uses"""
+        seen, todo, nodes = set(), [fn], []
+        while todo:
+            f = todo.pop()
+            for n in ast.walk(f):
+                nodes.append(n)
+                if isinstance(n, ast.Name) and n.id.startswith("_") and n.id not in seen:
+                    seen.add(n.id)
+                    if n.id in mod.globals:
+                        todo.append(mod.globals[n.id])
+                    elif n.id in mod.funcs:
+                        todo.append(mod.funcs[n.id])
+        return nodes
+
+    fa, fq = mods["fasta_file"], mods["fastq_file"]
+    fa_nodes = [n for _, f in fa.all_functions() for n in with_globals(fa, f)]
+    facts["fastaHeaderPrefix"] = one(add_left(fa_nodes), "FASTA header prefix ('>' + header)")
+    ch = sorted(set(cmp_sub0(fa_nodes)))
+    if facts["fastaHeaderPrefix"] not in ch or len(ch) != 2:
+        raise ValueError(f"FASTA line-start tests: expected the header prefix and one comment character, found {ch}")
+    facts["fastaHeaderChar"] = facts["fastaHeaderPrefix"]
+    facts["fastaCommentChar"] = next(c for c in ch if c != facts["fastaHeaderPrefix"])
+    fq_nodes = [n for _, f in fq.all_functions() for n in with_globals(fq, f)]
+    facts["fastqIdPrefix"] = one(add_left(fq_nodes), "FASTQ identifier prefix ('@' + identifier)")
+    facts["fastqLineStartChars"] = sorted(set(cmp_sub0(fq_nodes)))
+    guards = [(type(x.ops[0]).__name__, x.comparators[0].value) for n in fq_nodes if isinstance(n, ast.BinOp) and isinstance(n.op, ast.BitOr)
+              for x in (n.left, n.right) if isinstance(x, ast.Compare) and isinstance(x.comparators[0], ast.Constant)]
+    guards = sorted(set(guards))
+    if sorted(o for o, _ in guards) != ["Gt", "Lt"]:
+        raise ValueError(f"score range guard not of the form (x < lo) | (x > hi): {guards}")
+    facts["scoreLo"] = next(v for o, v in guards if o == "Lt")
+    facts["scoreHi"] = next(v for o, v in guards if o == "Gt")
+    _, enc = _tie_find(fq, lambda f: any(isinstance(n, ast.Attribute) and n.attr == "tobytes" for n in ast.walk(f)), "FASTQ score encoder (…tobytes())")
+    _, dec = _tie_find(fq, lambda f: any(isinstance(n, ast.Attribute) and n.attr == "frombuffer" for n in ast.walk(f)), "FASTQ score decoder (np.frombuffer)")
+
+    def dtypes(f):
+        return sorted({(n.attr if isinstance(n, ast.Attribute) else n.id) for c in ast.walk(f) if isinstance(c, ast.Call) for n in list(c.args) + [k.value for k in c.keywords]
+                       if (isinstance(n, ast.Attribute) and n.attr.startswith(("int", "uint"))) or (isinstance(n, ast.Name) and n.id == "int")})
+    facts["scoreDtypes"] = dtypes(enc) + ["|"] + dtypes(dec)
+
+    an, sq, gf = mods["gb_annotation"], mods["gb_sequence"], mods["gb_file"]
+
+    def regexes(mod):
+        return [c.args[0].value for _, f in mod.all_functions() for c in ast.walk(f) if isinstance(c, ast.Call) and isinstance(c.func, ast.Attribute)
+                and c.func.attr == "compile" and c.args and isinstance(c.args[0], ast.Constant)]
+    facts["qualifierRegex"] = one(regexes(an), "qualifier regex (re.compile in genbank/annotation.py)")
+    facts["originRegex"] = one(regexes(sq), "ORIGIN regex (re.compile in genbank/sequence.py)")
+    facts["originNumberFormat"] = one([v for _, f in sq.all_functions() for v in strs(f, 12) if "{" in v and "}" in v and "d" in v], "position number format of set_sequence")
+    sw = [c.args[0] for _, f in an.all_functions() for c in ast.walk(f) if isinstance(c, ast.Call) and isinstance(c.func, ast.Attribute) and c.func.attr == "startswith" and c.args]
+    facts["locKeywords"] = sorted({e.value for x in sw for e in (x.elts if isinstance(x, ast.Tuple) else [x]) if isinstance(e, ast.Constant)})
+    _, single = _tie_find(an, lambda f: sum(1 for n in ast.walk(f) if isinstance(n, ast.Compare) and isinstance(n.ops[0], ast.In) and isinstance(n.left, ast.Constant)
+                                             and n.left.value in ("..", ".", "^")) >= 3, "the location parser that tests the separators")
+    facts["locSeparators"] = [n.left.value for n in ast.walk(single) if isinstance(n, ast.Compare) and isinstance(n.ops[0], ast.In) and isinstance(n.left, ast.Constant)]   # order = precedence
+    _, prn = _tie_find(an, lambda f: any(isinstance(n, ast.Constant) and isinstance(n.value, str) and n.value == "complement(" for n in ast.walk(f)), "the location printer (f-string 'complement(')")
+    facts["locPrintLiterals"] = sorted({v for v in strs(prn, 12) if v.strip() and " " not in v.strip()})
+    _, tl = _tie_find(gf, lambda f: any(isinstance(n, ast.FormattedValue) and n.format_spec is not None for n in ast.walk(f)), "GenBankFile field writer (format spec of the name column)")
+    facts["gbLimits"] = sorted({n.comparators[0].value for n in W(tl) if isinstance(n, ast.Compare) and isinstance(n.ops[0], ast.Gt)
+                                and isinstance(n.comparators[0], ast.Constant) and isinstance(n.comparators[0].value, int)}, reverse=True)
+    facts["gbNameColumn"] = one([int(n.format_spec.values[0].value) for n in W(tl) if isinstance(n, ast.FormattedValue) and n.format_spec is not None
+                                 and n.format_spec.values and isinstance(n.format_spec.values[0], ast.Constant) and str(n.format_spec.values[0].value).isdigit()], "name column width")
+    facts["gbHeaderPad"] = one([n.right.value for n in W(tl) if isinstance(n, ast.BinOp) and isinstance(n.op, ast.Mult) and isinstance(n.right, ast.Constant)], "padding of the FEATURES header")
+    gb_nodes = [n for q, f in gf.all_functions() if q.startswith("GenBankFile.") for n in ast.walk(f)]
+    facts["gbSliceWidths"] = sorted({x.value for n in gb_nodes if isinstance(n, ast.Slice) for x in (n.lower, n.upper) if isinstance(x, ast.Constant) and isinstance(x.value, int)}
+                                    | {k.value.value for n in gb_nodes if isinstance(n, ast.Call) for k in n.keywords if k.arg == "indent" and isinstance(k.value, ast.Constant)})
+    facts["gbTerminator"] = one([n.value for _, f in gf.all_functions() for n in ast.walk(f) if isinstance(n, ast.Constant) and isinstance(n.value, str) and n.value.strip() == "//"], "terminator literal")
+    g = mods["gff_file"]
+    gi = g.classes["GFFFile"]["__getitem__"]
+    facts["gffColumns"] = one([n.comparators[0].value for n in W(gi) if isinstance(n, ast.Compare) and isinstance(n.left, ast.Call)
                                and getattr(n.left.func, "id", "") == "len" and isinstance(n.comparators[0], ast.Constant)], "column count of GFFFile.__getitem__")
-    facts["gffGetitemLiterals"] = [n.value for n in ast.walk(g["GFFFile.__getitem__"]) if isinstance(n, ast.Constant) and isinstance(n.value, str) and len(n.value) <= 2]
-    facts["gffCreateLineLiterals"] = [n.value for n in ast.walk(g["GFFFile._create_line"]) if isinstance(n, ast.Constant) and isinstance(n.value, str) and len(n.value) <= 2]
-    facts["gffIndexLiterals"] = [n.value for n in ast.walk(g["GFFFile._index_entries"]) if isinstance(n, ast.Constant) and isinstance(n.value, str) and len(n.value) <= 5]
-    facts["gffValueEscape"] = [n.value for n in ast.walk(g["_quote_value"]) if isinstance(n, ast.Constant) and isinstance(n.value, str) and len(n.value) <= 3]
-    facts["gffInitDirective"] = [a.value for c in ast.walk(g["GFFFile.__init__"]) if isinstance(c, ast.Call) and getattr(c.func, "attr", "") == "append_directive" for a in c.args]
-    gc = trees["gff_convert"]
-    facts["gffIdKey"] = one([n.value for fn in gc.values() for n in ast.walk(fn) if isinstance(n, ast.Constant) and n.value == "ID"] or [], "the 'ID' attribute name in gff/convert.py")
-    # Location.Defect members in definition order (auto() gives 1, 2, 4, ... in this order)
+    facts["gffGetitemLiterals"] = sorted({n.value for n in with_globals(g, gi) if isinstance(n, ast.Constant) and isinstance(n.value, str) and 0 < len(n.value) <= 2})
+    _, cl = _tie_find(g, lambda f: any(isinstance(c, ast.Call) and isinstance(c.func, ast.Attribute) and c.func.attr == "join" and isinstance(c.func.value, ast.Constant)
+                                        and c.func.value.value == "\t" for c in ast.walk(f)), "the GFF line writer ('\\t'.join)")
+    facts["gffCreateLineLiterals"] = sorted({n.value for n in with_globals(g, cl) if isinstance(n, ast.Constant) and isinstance(n.value, str) and 0 < len(n.value) <= 3 and n.value != "%;=&,"})
+    _, ix = _tie_find(g, lambda f: any(isinstance(n, ast.Compare) and any(isinstance(c, ast.Constant) and c.value == "FASTA" for c in n.comparators) for n in ast.walk(f)), "the GFF line indexer (== 'FASTA')")
+    facts["gffIndexLiterals"] = sorted({n.value for n in with_globals(g, ix) if isinstance(n, ast.Constant) and isinstance(n.value, str) and 0 < len(n.value) <= 5})
+    init = g.classes["GFFFile"]["__init__"]
+    facts["gffInitDirective"] = [x.value for c in W(init) if isinstance(c, ast.Call) and getattr(c.func, "attr", "") == "append_directive" for x in c.args]
+    gc = mods["gff_convert"]
+    facts["gffIdKey"] = one([n.value for _, f in gc.all_functions() for n in ast.walk(f) if isinstance(n, ast.Constant) and n.value == "ID"], "the 'ID' attribute name in gff/convert.py")
     p_ann = os.path.join(src_root, "biotite/sequence/annotation.py")
-    cls = next((c for n in ast.parse(open(p_ann).read()).body if isinstance(n, ast.ClassDef) and n.name == "Location" for c in n.body
-                if isinstance(c, ast.ClassDef) and c.name == "Defect"), None)
-    if cls is None:
+    dcls = next((c for n in ast.parse(open(p_ann).read()).body if isinstance(n, ast.ClassDef) and n.name == "Location" for c in n.body
+                 if isinstance(c, ast.ClassDef) and c.name == "Defect"), None)
+    if dcls is None:
         raise ValueError("Location.Defect not found")
-    facts["defectMembers"] = [f"{t.id}={ast.unparse(a.value)}" for a in cls.body if isinstance(a, ast.Assign) for t in a.targets]
-    # default values of the public entry points
+    facts["defectMembers"] = [f"{t.id}={ast.unparse(x.value)}" for x in dcls.body if isinstance(x, ast.Assign) for t in x.targets]
     defs = []
-    for mod, _, names in _TIE_MODULES:
-        for name in names:
-            if name.split(".")[-1].startswith("_") and not name.endswith("__init__"):
-                continue
-            a = trees[mod][name].args
-            dd = [None] * (len(a.args) - len(a.defaults)) + list(a.defaults)
-            for arg, d in zip(a.args, dd):
-                if d is not None:
-                    defs.append(f"{mod}:{name}({arg.arg}={ast.unparse(d)})")
+    for m, mod in mods.items():
+        for q, fn, _ in mod.public():
+            defs += [f"{m}:{q}({x})" for x in _tie_signature(fn) if "=" in x]
     facts["defaults"] = defs
     return facts, fps, dump
 
@@ -364,14 +517,17 @@ def _tie_lean(facts, fps, dump):
     for k in ("qualifierRegex", "originRegex", "originNumberFormat", "gbTerminator", "gffIdKey"):
         L.append(f"def {k} : String := {_lstr(facts[k])}")
     for k in ("scoreDtypes", "locKeywords", "locSeparators", "locPrintLiterals", "gffGetitemLiterals", "gffCreateLineLiterals", "gffIndexLiterals",
-              "gffValueEscape", "gffInitDirective", "defectMembers", "defaults"):
+              "gffInitDirective", "defectMembers", "defaults"):
         L.append(f"def {k} : List String := [" + ", ".join(_lstr(x) for x in facts[k]) + "]")
     for k in ("gbLimits", "gbSliceWidths"):
         L.append(f"def {k} : List Nat := [" + ", ".join(str(x) for x in facts[k]) + "]")
     for k in ("gbNameColumn", "gbHeaderPad", "gffColumns"):
         L.append(f"def {k} : Nat := {facts[k]}")
-    L.append("/-- per function: hash of its structure (constants, operators, control flow, called names, raised classes, defaults;")
-    L.append("independent of names of locals, comments, docstrings and error texts).  The token lists are at the end of this file. -/")
+    L.append("/-- per public function / method: hash of its normal form = set of atoms (constants with the operator, call or subscript they")
+    L.append("occur in; public names; raised classes; `assert`), ordered list of checks (`if{atoms of the test}` followed by what is raised),")
+    L.append("parameter names and defaults; private helpers and private globals are inlined where they are used.  Independent of names of")
+    L.append("locals / private helpers / private globals, of comments, docstrings, annotations, formatting, message texts, of temporaries,")
+    L.append("hoisted invariants, comprehension vs loop.  The normal forms are at the end of this file. -/")
     for mod, rows in fps.items():
         L.append(f"def fp_{mod} : List (String × Nat) := [" + ", ".join(f"({_lstr(n)}, {h})" for n, h in rows) + "]")
     L.append("/- token lists behind the hashes (for reading a diff):")
@@ -381,44 +537,55 @@ def _tie_lean(facts, fps, dump):
 
 
 def gen_lean():
+    """Everything is found by shape (what an expression contains), not by the private name it is bound to."""
     import ast
     import string
     from common import paths
 
-    p_gff = os.path.join(paths.SRC, "biotite/sequence/io/gff/file.py")
-    tree = ast.parse(open(p_gff).read())
-    node = next((n for n in tree.body if isinstance(n, ast.Assign) and getattr(n.targets[0], "id", "") == "_NOT_QUOTED"), None)
-    if node is None:
-        raise ValueError("_NOT_QUOTED not found in gff/file.py")
+    def one(xs, what):
+        if len(xs) != 1:
+            raise ValueError(f"{what}: expected exactly one, found {len(xs)}")
+        return xs[0]
+
+    g = _TieModule(os.path.join(paths.SRC, "biotite/sequence/io/gff/file.py"))
+    nq = one([v for v in g.globals.values() if any(isinstance(n, ast.Attribute) and n.attr == "punctuation" for n in ast.walk(v))],
+             "module-level global of gff/file.py built from string.punctuation (the `safe` set of quote)")
     # evaluate the defining expression with nothing but `string` in scope (it is a pure str expression)
-    not_quoted = eval(compile(ast.Expression(node.value), p_gff, "eval"), {"__builtins__": {}, "string": string})
+    not_quoted = eval(compile(ast.Expression(nq), "gff/file.py", "eval"), {"__builtins__": {}, "string": string})
     if not isinstance(not_quoted, str):
-        raise ValueError("_NOT_QUOTED is not a str")
-    # which columns of _create_line go through quote(): the tie for the `type` fix
-    src_gff = open(p_gff).read()
-    fn = next((n for n in ast.walk(tree) if isinstance(n, ast.FunctionDef) and n.name == "_create_line"), None)
-    if fn is None:
-        raise ValueError("_create_line not found")
+        raise ValueError("the safe set of gff/file.py is not a str")
+    # which of the first three columns of the line writer go through quote(): the tie for the `type` fix
+    _, fn = _tie_find(g, lambda f: any(isinstance(c, ast.Call) and isinstance(c.func, ast.Attribute) and c.func.attr == "join" and isinstance(c.func.value, ast.Constant)
+                                       and c.func.value.value == "\t" for c in ast.walk(f)), "the GFF line writer ('\\t'.join)")
+    params = [x.arg for x in fn.args.args][:3]
+    if params != ["seqid", "source", "type"]:
+        raise ValueError(f"the GFF line writer no longer starts with the columns seqid, source, type: {params}")
     quoted = []
     for n in ast.walk(fn):
-        if isinstance(n, ast.Assign) and isinstance(n.targets[0], ast.Name) and n.targets[0].id in ("seqid", "source", "type"):
-            calls = [c for c in ast.walk(n.value) if isinstance(c, ast.Call) and getattr(c.func, "id", "") == "quote"]
-            if calls:
+        if isinstance(n, ast.Assign) and isinstance(n.targets[0], ast.Name) and n.targets[0].id in params:
+            if any(isinstance(c, ast.Call) and getattr(c.func, "id", "") == "quote" for c in ast.walk(n.value)):
                 quoted.append(n.targets[0].id)
-    p_fq = os.path.join(paths.SRC, "biotite/sequence/io/fastq/file.py")
-    tq = ast.parse(open(p_fq).read())
-    node = next((n for n in tq.body if isinstance(n, ast.Assign) and getattr(n.targets[0], "id", "") == "_OFFSETS"), None)
-    if node is None:
-        raise ValueError("_OFFSETS not found in fastq/file.py")
-    offsets = ast.literal_eval(node.value)
-    p_an = os.path.join(paths.SRC, "biotite/sequence/io/genbank/annotation.py")
-    p_sq = os.path.join(paths.SRC, "biotite/sequence/io/genbank/sequence.py")
-    s_an, s_sq = open(p_an).read(), open(p_sq).read()
-    key_start, qual_start = _const(s_an, "_KEY_START", p_an), _const(s_an, "_QUAL_START", p_an)
-    chunk, chunks = _const(s_sq, "_SYMBOLS_PER_CHUNK", p_sq), _const(s_sq, "_SEQ_CHUNKS_PER_LINE", p_sq)
-    m = re.search(r"^_SYMBOLS_PER_LINE\s*=\s*_SYMBOLS_PER_CHUNK\s*\*\s*_SEQ_CHUNKS_PER_LINE\s*$", s_sq, re.M)
-    per_line = chunk * chunks if m else _const(s_sq, "_SYMBOLS_PER_LINE", p_sq)
-    del src_gff
+    q = _TieModule(os.path.join(paths.SRC, "biotite/sequence/io/fastq/file.py"))
+    offsets = ast.literal_eval(one([v for v in q.globals.values() if isinstance(v, ast.Dict) and v.keys and all(isinstance(k, ast.Constant) and isinstance(k.value, str) for k in v.keys)
+                                    and all(isinstance(x, ast.Constant) and isinstance(x.value, int) for x in v.values)], "the name -> offset dict of fastq/file.py"))
+    an = _TieModule(os.path.join(paths.SRC, "biotite/sequence/io/genbank/annotation.py"))
+    ints = sorted(v.value for v in an.globals.values() if isinstance(v, ast.Constant) and isinstance(v.value, int) and not isinstance(v.value, bool))
+    if len(ints) != 2:
+        raise ValueError(f"genbank/annotation.py: expected two integer column constants (key start, qualifier start), found {ints}")
+    key_start, qual_start = ints
+    sq = _TieModule(os.path.join(paths.SRC, "biotite/sequence/io/genbank/sequence.py"))
+    int_globals = {k: v.value for k, v in sq.globals.items() if isinstance(v, ast.Constant) and isinstance(v.value, int) and not isinstance(v.value, bool)}
+    if len(int_globals) != 2:
+        raise ValueError(f"genbank/sequence.py: expected two integer constants (symbols per chunk, chunks per line), found {int_globals}")
+    _, wr = _tie_find(sq, lambda f: any(isinstance(c, ast.Call) and getattr(c.func, "id", "") == "range" and len(c.args) == 3 for c in ast.walk(f)), "the ORIGIN writer (range with a step)")
+    step = one([c.args[2].id for c in ast.walk(wr) if isinstance(c, ast.Call) and getattr(c.func, "id", "") == "range" and len(c.args) == 3 and isinstance(c.args[2], ast.Name)],
+               "step of the chunk loop of the ORIGIN writer")
+    if step not in int_globals:
+        raise ValueError("the step of the chunk loop is not one of the integer constants")
+    chunk = int_globals[step]
+    chunks = one([v for k, v in int_globals.items() if k != step], "chunks per line")
+    prod = [v for v in sq.globals.values() if isinstance(v, ast.BinOp) and isinstance(v.op, ast.Mult) and all(isinstance(x, ast.Name) and x.id in int_globals for x in (v.left, v.right))]
+    per_line = chunk * chunks if len(prod) == 1 else one([], "symbols per line as the product of the two constants")
     body = [
         "/- REGENERATED on every run by harness/props/c12.py from sequence/io/{gff/file.py, fastq/file.py, genbank/annotation.py, genbank/sequence.py}. Do not edit. -/",
         "namespace BiotiteModel.Gen.C12",
@@ -442,9 +609,62 @@ def gen_lean():
 
 
 # ------------------------------------------------------------------ generators
+_PRIV_CACHE = {}
+
+
+def _priv(role):
+    """A private helper / global of biotite the adapter has to call, found by what it contains (same
+    patterns as the Gen extractor), not by its name: a rename of a private name must not disturb the check."""
+    import ast
+    import importlib
+    from common import paths
+    if role in _PRIV_CACHE:
+        return _PRIV_CACHE[role]
+    spec = {
+        "fastq.encode": ("biotite.sequence.io.fastq.file", "biotite/sequence/io/fastq/file.py",
+                         lambda f: any(isinstance(n, ast.Attribute) and n.attr == "tobytes" for n in ast.walk(f))),
+        "fastq.decode": ("biotite.sequence.io.fastq.file", "biotite/sequence/io/fastq/file.py",
+                         lambda f: any(isinstance(n, ast.Attribute) and n.attr == "frombuffer" for n in ast.walk(f))),
+        "gb.loc_print": ("biotite.sequence.io.genbank.annotation", "biotite/sequence/io/genbank/annotation.py",
+                         lambda f: any(isinstance(n, ast.Constant) and n.value == "complement(" for n in ast.walk(f))),
+        "gb.loc_parse": ("biotite.sequence.io.genbank.annotation", "biotite/sequence/io/genbank/annotation.py",
+                         lambda f: any(isinstance(c, ast.Call) and getattr(c.func, "attr", "") == "startswith" and c.args and isinstance(c.args[0], ast.Tuple) for c in ast.walk(f))),
+        "gb.seq_string": ("biotite.sequence.io.genbank.sequence", "biotite/sequence/io/genbank/sequence.py",
+                          lambda f: any(isinstance(c, ast.Call) and getattr(c.func, "attr", "") == "compile" for c in ast.walk(f))),
+        "gb.seq_start": ("biotite.sequence.io.genbank.sequence", "biotite/sequence/io/genbank/sequence.py",
+                         lambda f: f.name.startswith("_") and any(isinstance(c, ast.Call) and getattr(c.func, "id", "") == "int" for c in ast.walk(f))
+                         and any(isinstance(c, ast.Call) and getattr(c.func, "attr", "") == "split" for c in ast.walk(f))),
+        "gff.create_line": ("biotite.sequence.io.gff.file", "biotite/sequence/io/gff/file.py",
+                            lambda f: any(isinstance(c, ast.Call) and isinstance(c.func, ast.Attribute) and c.func.attr == "join" and isinstance(c.func.value, ast.Constant)
+                                          and c.func.value.value == "\t" for c in ast.walk(f))),
+    }
+    gspec = {
+        "gff.safe": ("biotite.sequence.io.gff.file", "biotite/sequence/io/gff/file.py",
+                     lambda v: any(isinstance(n, ast.Attribute) and n.attr == "punctuation" for n in ast.walk(v))),
+        "fastq.offsets": ("biotite.sequence.io.fastq.file", "biotite/sequence/io/fastq/file.py",
+                          lambda v: isinstance(v, ast.Dict) and v.keys and all(isinstance(k, ast.Constant) and isinstance(k.value, str) for k in v.keys)
+                          and all(isinstance(x, ast.Constant) and isinstance(x.value, int) for x in v.values)),
+    }
+    if role in spec:
+        modname, rel, pred = spec[role]
+        mod = _TieModule(os.path.join(paths.SRC, rel))
+        q, _ = _tie_find(mod, pred, role)
+        obj = importlib.import_module(modname)
+        for part in q.split("."):
+            obj = getattr(obj, part)
+    else:
+        modname, rel, pred = gspec[role]
+        mod = _TieModule(os.path.join(paths.SRC, rel))
+        names = [k for k, v in mod.globals.items() if pred(v)]
+        if len(names) != 1:
+            raise ValueError(f"{role}: expected exactly one module-level global of that shape, found {names}")
+        obj = getattr(importlib.import_module(modname), names[0])
+    _PRIV_CACHE[role] = obj
+    return obj
+
+
 def _safe_codes():
-    from biotite.sequence.io.gff import file as gfile
-    return ",".join(str(ord(c)) for c in gfile._NOT_QUOTED)
+    return ",".join(str(ord(c)) for c in _priv("gff.safe"))
 
 
 def g_header(rng, edge=False):
@@ -1376,10 +1596,10 @@ def _gb_line_op(k, w):
         return "ok " + el(st.lines)
     lines = dl(w[1])
     try:
-        a = str(gbs._get_seq_start(lines))
+        a = str(_priv("gb.seq_start")(lines))
     except Exception as e:  # noqa: BLE001
         a = err(e)
-    return f"ok {a} {es(gbs._field_to_seq_string(lines))}"
+    return f"ok {a} {es(_priv('gb.seq_string')(lines))}"
 
 
 def _scramble(obj, depth=0):
@@ -1500,6 +1720,7 @@ def _run_impl(case):
     st = None
     out = []
     inputs = []       # mutable objects handed to the file object by the "caller"; `*_poke` edits them afterwards
+    opts = {}         # constructor options of the current file object (kept here, not read from private attributes)
     for op in case["ops"]:
         w = op.split(" ")
         k = w[0]
@@ -1510,8 +1731,10 @@ def _run_impl(case):
             elif k == "wrap":
                 out.append("ok " + el(wrap_string(ds(w[2]), int(w[1]))))
             elif k == "fa_new":
+                opts = {"cpl": int(w[1])}
                 st = FastaFile(chars_per_line=_sp_int(int(w[1]))); out.append("ok")
             elif k == "fa_read":
+                opts = {"cpl": int(w[1])}
                 st = FastaFile.read(io.StringIO("\n".join(dl(w[2])) + "\n"), int(w[1])) if dl(w[2]) else FastaFile.read(io.StringIO("\n"), int(w[1]))
                 out.append(_fa_state(st))
             elif k in ("fa_copy", "fq_copy", "gff_copy", "gb_copy"):
@@ -1523,7 +1746,7 @@ def _run_impl(case):
                     _scramble(a)
                 out.append({"fa": _fa_state, "fq": _fq_state, "gff": _gff_state, "gb": _gb_state}[k.split("_")[0]](st))
             elif k == "fa_reread":
-                st = _reread(FastaFile, st, st._chars_per_line); out.append(_fa_state(st))
+                st = _reread(FastaFile, st, opts["cpl"]); out.append(_fa_state(st))
             elif k == "fa_set":
                 st[ds(w[1])] = ds(w[2]); out.append(_fa_state(st))
             elif k == "fa_del":
@@ -1533,12 +1756,14 @@ def _run_impl(case):
             elif k == "fa_items":
                 it = list(st.items()); out.append("ok " + ("|".join(es(a) + "~" + es(b) for a, b in it) if it else "-"))
             elif k == "fq_new":
+                opts = {"off": int(w[1]), "cpl": None if w[2] == "-" else int(w[2])}
                 st = FastqFile(offset=_sp_int(int(w[1])), chars_per_line=None if w[2] == "-" else _sp_int(int(w[2]))); out.append("ok")
             elif k == "fq_read":
+                opts = {"off": int(w[1]), "cpl": None if w[2] == "-" else int(w[2])}
                 st = FastqFile.read(io.StringIO("\n".join(dl(w[3])) + "\n"), int(w[1]), None if w[2] == "-" else int(w[2]))
                 out.append(_fq_state(st))
             elif k == "fq_reread":
-                st = _reread(FastqFile, st, st._offset, st._chars_per_line); out.append(_fq_state(st))
+                st = _reread(FastqFile, st, opts["off"], opts["cpl"]); out.append(_fq_state(st))
             elif k == "fq_set":
                 st[ds(w[1])] = (ds(w[2]), _sp_arr([] if w[3] == "_" else [int(x) for x in w[3].split(",")])); out.append(_fq_state(st))
             elif k == "fq_del":
@@ -1548,22 +1773,22 @@ def _run_impl(case):
             elif k == "fq_items":
                 it = list(st.items()); out.append("ok " + ("|".join(es(a) + "~" + es(s) + "~" + ei(q) for a, (s, q) in it) if it else "-"))
             elif k == "fq_enc":
-                out.append("ok " + es(fqfile._scores_to_score_str([] if w[2] == "_" else [int(x) for x in w[2].split(",")], int(w[1]))))
+                out.append("ok " + es(_priv("fastq.encode")([] if w[2] == "_" else [int(x) for x in w[2].split(",")], int(w[1]))))
             elif k == "fq_dec":
-                out.append("ok " + ei(fqfile._score_str_to_scores(ds(w[2]), int(w[1]))))
+                out.append("ok " + ei(_priv("fastq.decode")(ds(w[2]), int(w[1]))))
             elif k == "loc_rt":
                 locs = [_mkloc([int(x) for x in t.split(":")]) for t in w[1].split(";")]
                 # a list, not a set: the printed order is the order given (Feature.locs is a frozenset)
-                s = gba._convert_to_loc_string(locs)
+                s = _priv("gb.loc_print")(locs)
                 try:
-                    back = gba._parse_locs(s)
+                    back = _priv("gb.loc_parse")(s)
                     r = ";".join(_locout(x) for x in back) if back else "-"
                 except Exception:  # noqa: BLE001  (get_annotation catches everything and skips the feature)
                     r = "skip"
                 out.append(f"ok {es(s)} => {r}")
             elif k == "loc_parse":
                 try:
-                    back = gba._parse_locs(ds(w[1]))
+                    back = _priv("gb.loc_parse")(ds(w[1]))
                     out.append("ok " + (";".join(_locout(x) for x in back) if back else "-"))
                 except Exception:  # noqa: BLE001
                     out.append("skip")
@@ -1572,16 +1797,16 @@ def _run_impl(case):
             elif k == "gff_unquote":
                 out.append("ok " + eb(unquote_to_bytes(ds(w[1]))))
             elif k == "gff_rt":
-                line = GFFFile._create_line(*_dec_entry(w[2:]))
-                g = GFFFile(); g.lines = [line]; g._index_entries()
+                line = _priv("gff.create_line")(*_dec_entry(w[2:]))
+                g = GFFFile.read(io.StringIO(line + "\n"))
                 try:
                     r = _gff_entry_out(g[0]) if len(g) else "ERR:IndexError"
                 except Exception as e:  # noqa: BLE001
                     r = err(e)
                 out.append(f"ok {es(line)} => {r}")
             elif k == "gff_parse":
-                g = GFFFile(); g.lines = [ds(w[1])]; g._entries = [0]
-                out.append("ok " + _gff_entry_out(g[0]))
+                g = GFFFile.read(io.StringIO(ds(w[1]) + "\n"))
+                out.append("ok " + _gff_entry_out(g[0]) if len(g) else "no-entry")
             elif k in ("gbf_parse", "gbf_print", "gbf_rt", "org_print", "org_read"):
                 out.append(_gb_line_op(k, w))
             elif k == "gff_group":
@@ -1735,7 +1960,7 @@ def _alias_check(fmt, f, cls, read_args=(), inputs=()):
             return [(f"C12/{fmt}/copy-inconsistent", f"the next edit on a copy gives {str(o_copy)[:140]} but on a file read from the same text {str(o_fresh)[:140]}")]
     try:
         if fmt == "gff":
-            if getattr(c, "_has_fasta", False):
+            if any(l == "##FASTA" for l in c.lines):
                 return []          # appending is refused for files with FASTA data (checked above)
             c.append("copyseq", "x", "t", 1, 2, None, None, None, {"ID": "only-in-copy"})
             del c[0]
@@ -1969,9 +2194,9 @@ def _o_loc(spec):
     locs = [_mkloc(l) for l in spec["locs"]]
     if not all(_expressible(l[3]) for l in spec["locs"]):
         return []
-    s = gba._convert_to_loc_string(locs)
+    s = _priv("gb.loc_print")(locs)
     try:
-        back = gba._parse_locs(s)
+        back = _priv("gb.loc_parse")(s)
     except Exception as e:  # noqa: BLE001
         return [("C12/genbank/location/unparseable", f"{spec['locs']} -> {s!r} -> {type(e).__name__}")]
     if back != locs:
@@ -2254,7 +2479,7 @@ def _o_quote(spec):
     from urllib.parse import unquote
     from biotite.sequence.io.gff import file as gfile
     from urllib.parse import quote
-    q = quote(spec["s"], safe=gfile._NOT_QUOTED)
+    q = quote(spec["s"], safe=_priv("gff.safe"))
     v = []
     if unquote(q) != spec["s"]:
         v.append(("C12/gff/quote-not-invertible", f"{spec['s']!r} -> {q!r} -> {unquote(q)!r}"))
@@ -2301,7 +2526,7 @@ def _o_seq_conv_inner(spec):
             v.append(("C12/fasta/order", f"{list(g.keys())}"))
     else:
         from biotite.sequence.io import fastq
-        from biotite.sequence.io.fastq.file import _OFFSETS
+        _OFFSETS = _priv("fastq.offsets")
         rnd = random.Random(spec["seed"])
         off = _OFFSETS[spec["off"]]
         f = fastq.FastqFile(offset=spec["off"], chars_per_line=spec["cpl"])
@@ -2321,10 +2546,10 @@ def _o_origin(spec):
     st = _GbStub()
     gbs.set_sequence(st, spec["seq"], spec["start"])
     v = []
-    if gbs._field_to_seq_string(st.lines) != spec["seq"].lower():
-        v.append(("C12/genbank/origin-sequence-roundtrip", f"{spec['start']} {spec['seq'][:20]!r}... -> {gbs._field_to_seq_string(st.lines)[:30]!r}"))
-    if gbs._get_seq_start(st.lines) != spec["start"]:
-        v.append(("C12/genbank/sequence-start", f"{spec['start']} -> {gbs._get_seq_start(st.lines)}"))
+    if _priv("gb.seq_string")(st.lines) != spec["seq"].lower():
+        v.append(("C12/genbank/origin-sequence-roundtrip", f"{spec['start']} {spec['seq'][:20]!r}... -> {_priv('gb.seq_string')(st.lines)[:30]!r}"))
+    if _priv("gb.seq_start")(st.lines) != spec["start"]:
+        v.append(("C12/genbank/sequence-start", f"{spec['start']} -> {_priv('gb.seq_start')(st.lines)}"))
     return v
 
 
@@ -2446,7 +2671,7 @@ def _o_api_inner(spec):
             a, b = fasta.FastaFile.read(p1, spec["cpl"]), fasta.FastaFile.read(p2, spec["cpl"])
             with open(p1) as fh:
                 c = fasta.FastaFile.read(fh, spec["cpl"])
-            if not (list(a.items()) == list(b.items()) == list(c.items()) == list(f.items())) or a._chars_per_line != spec["cpl"]:
+            if not (list(a.items()) == list(b.items()) == list(c.items()) == list(f.items())):
                 v.append(("C12/textfile/path-vs-object", "read(path) differs from read(file object)"))
             if list(fasta.FastaFile.read_iter(p1)) != list(f.items()):
                 v.append(("C12/textfile/path-vs-object", "read_iter(path)"))
